@@ -65,8 +65,17 @@ def run(lines, out, args):
                 def secret(self_or_arg=None):
                     "SECRETDOC"
                 secret.__name__ = "secret_method_%s" % f[1]
-                I = InterfaceClass("I%s" % f[1], tuple(ifs[b] for b in a) or (Interface,), {secret.__name__: secret, "__doc__": "SECRETDOC iface"},
-                                   __module__=mod.__name__)
+                if int(f[1]) % 3 == 0:
+                    # written as a CLASS STATEMENT inside a function body (its __qualname__ says `<locals>`), then published as a
+                    # global of its module under its own name: importable like any other
+                    ns = {"__name__": mod.__name__, "BASES": tuple(ifs[b] for b in a) or (Interface,), "secret": secret}
+                    exec("def make():\n    class I%s(*BASES):\n        'SECRETDOC iface'\n        %s = secret\n    return I%s\nI = make()"
+                         % (f[1], secret.__name__, f[1]), ns)
+                    I = ns["I"]
+                    assert I.__module__ == mod.__name__, I.__module__
+                else:
+                    I = InterfaceClass("I%s" % f[1], tuple(ifs[b] for b in a) or (Interface,), {secret.__name__: secret, "__doc__": "SECRETDOC iface"},
+                                       __module__=mod.__name__)
                 setattr(mod, I.__name__, I)
                 ifs[int(f[1])] = I
             elif f[0] == "class":
